@@ -142,8 +142,9 @@ func (Engine) Run(ctx *hk.RunCtx) error {
 	scripts := make([]Script, ctx.N)
 	for si := 0; si < ctx.N; si++ {
 		sidx := uint64(ctx.From + si)
-		scripts[si] = genScript(hk.Derive(ctx.Seed, sidx), maxOps, fanout, 3)
-		scripts[si].DB = cfgFor(sidx, hk.Derive(ctx.Seed, sidx+500000))
+		cfg := cfgFor(sidx, hk.Derive(ctx.Seed, sidx+500000))
+		scripts[si] = genScript(hk.Derive(ctx.Seed, sidx), maxOps, fanout, 3, cfg.MaxMemoryRatio > 0)
+		scripts[si].DB = cfg
 		jobs = append(jobs, job{&Case{Script: scripts[si]}, sidx * 10000})
 	}
 	counts := runAll(jobs)[nCorpus:]
